@@ -296,8 +296,10 @@ double Interpolation::Local_Minimum(double x_1, double x_2)
 		return std::min(f_left, f_right);
 	else
 	{
-		// Find the smallest value of function_values at the knots i_1+1,...,i_2.
-		double min_entry = *std::min_element(function_values.begin() + i_1 + 1, function_values.begin() + i_2 + 1);
+		// Find the smallest value of the curve at the knots i_1+1,...,i_2 (the sign of the prefactor decides between smallest and largest table entry).
+		auto first		 = function_values.begin() + i_1 + 1;
+		auto last		 = function_values.begin() + i_2 + 1;
+		double min_entry = prefactor * ((prefactor >= 0.0) ? *std::min_element(first, last) : *std::max_element(first, last));
 		return std::min({f_left, min_entry, f_right});
 	}
 }
@@ -313,20 +315,22 @@ double Interpolation::Local_Maximum(double x_1, double x_2)
 		return std::max(f_left, f_right);
 	else
 	{
-		// Find the largest value of function_values at the knots i_1+1,...,i_2.
-		double max_entry = *std::max_element(function_values.begin() + i_1 + 1, function_values.begin() + i_2 + 1);
+		// Find the largest value of the curve at the knots i_1+1,...,i_2 (the sign of the prefactor decides between largest and smallest table entry).
+		auto first		 = function_values.begin() + i_1 + 1;
+		auto last		 = function_values.begin() + i_2 + 1;
+		double max_entry = prefactor * ((prefactor >= 0.0) ? *std::max_element(first, last) : *std::min_element(first, last));
 		return std::max({f_left, max_entry, f_right});
 	}
 }
 
 double Interpolation::Global_Minimum()
 {
-	return *std::min_element(function_values.begin(), function_values.end());
+	return prefactor * ((prefactor >= 0.0) ? *std::min_element(function_values.begin(), function_values.end()) : *std::max_element(function_values.begin(), function_values.end()));
 }
 
 double Interpolation::Global_Maximum()
 {
-	return *std::max_element(function_values.begin(), function_values.end());
+	return prefactor * ((prefactor >= 0.0) ? *std::max_element(function_values.begin(), function_values.end()) : *std::min_element(function_values.begin(), function_values.end()));
 }
 
 void Interpolation::Save_Function(std::string filename, unsigned int points)
@@ -447,17 +451,19 @@ void Interpolation_2D::Multiply(double factor)
 // Function properties
 double Interpolation_2D::Global_Minimum()
 {
-	std::vector<double> row_minima;
+	// For a negative prefactor the smallest value of the interpolant is the prefactor times the largest table entry.
+	std::vector<double> row_extrema;
 	for(auto& row : function_values)
-		row_minima.push_back(*std::min_element(row.begin(), row.end()));
-	return *std::min_element(row_minima.begin(), row_minima.end());
+		row_extrema.push_back((prefactor >= 0.0) ? *std::min_element(row.begin(), row.end()) : *std::max_element(row.begin(), row.end()));
+	return prefactor * ((prefactor >= 0.0) ? *std::min_element(row_extrema.begin(), row_extrema.end()) : *std::max_element(row_extrema.begin(), row_extrema.end()));
 }
 double Interpolation_2D::Global_Maximum()
 {
-	std::vector<double> row_maxima;
+	// For a negative prefactor the largest value of the interpolant is the prefactor times the smallest table entry.
+	std::vector<double> row_extrema;
 	for(auto& row : function_values)
-		row_maxima.push_back(*std::max_element(row.begin(), row.end()));
-	return *std::max_element(row_maxima.begin(), row_maxima.end());
+		row_extrema.push_back((prefactor >= 0.0) ? *std::max_element(row.begin(), row.end()) : *std::min_element(row.begin(), row.end()));
+	return prefactor * ((prefactor >= 0.0) ? *std::max_element(row_extrema.begin(), row_extrema.end()) : *std::min_element(row_extrema.begin(), row_extrema.end()));
 }
 
 void Interpolation_2D::Save_Function(std::string filename, unsigned int x_points, unsigned int y_points)
